@@ -112,6 +112,12 @@ class C11(core.Property):
                         for ch in range(maxu + 1):
                             cases.append({"k": "offset", "e": e, "text": text, "l": l, "ch": ch})
                             cases.append({"k": "word", "e": e, "text": text, "l": l, "ch": ch})
+                            if n <= 2:
+                                # the same queries on a notebook cell's document of a real server negotiated
+                                # to the encoding (cells get the workspace's codec like any document)
+                                how = "open" if (l + ch) % 2 == 0 else "struct"
+                                cases.append({"k": "offset", "e": e, "text": text, "l": l, "ch": ch, "cell": how})
+                                cases.append({"k": "word", "e": e, "text": text, "l": l, "ch": ch, "cell": how})
         qpool = [0x61, 0x62, 0x5A, 0x5F, 0x30, 0x39, 0x20, 0x2D, 0x2E, 0xE9, 0x20AC, 0x1F60B, 0x40, 0x5B, 0x60, 0x7B, 0x2F, 0x3A]
         for _ in range(chk.n(1500, 20000)):
             text = []
@@ -123,6 +129,8 @@ class C11(core.Property):
             l = rng.randint(0, self._nlines(text) + 1)
             ch = rng.choice([rng.randint(0, 16), rng.randint(0, 16), rng.randint(0, 40), 2 ** 31 - 1])
             cases.append({"k": rng.choice(["offset", "word"]), "e": e, "text": text, "l": l, "ch": ch})
+            if rng.random() < 0.2:
+                cases[-1]["cell"] = rng.choice(["open", "struct"])
         # a document that is not open (no in-memory source): served from the file, never from stale
         # state (C10's clause, checked here with C11's queries): query, rewrite the file, query
         dpool = [0x61, 0x62, 0x5F, 0x20, 0xE9, 0x1F60B, 0x0A, 0x0A]
@@ -147,8 +155,25 @@ class C11(core.Property):
             elif k in ("from", "to"):
                 cases.append({"k": k, "e": e, "lines": lines, "l": l, "ch": ch, "es": es})
             else:
-                cases.append({"k": k, "e": e, "lines": lines, "l": l, "ch": ch,
-                              "l2": rng.randint(0, nl + 1), "ch2": rng.randint(0, 20), "es": es})
+                same = rng.random() < 0.5
+                cases.append({"k": k, "e": e, "lines": lines, "l": l, "ch": rng.randint(0, 8) if same else ch,
+                              "l2": l if same else rng.randint(0, nl + 1), "ch2": rng.randint(0, 20), "es": es})
+        # ranges, small scope: every text up to length 3 over {a, astral, LF} x every pair of positions
+        # (valid, inside a character, past the end of the line / document) x 3 encodings
+        for n in range(4):
+            for t in itertools.product([0x61, 0x1F60B, 0x0A], repeat=n):
+                lines = self._lines_keep(list(t))
+                for e in ENCS:
+                    ps = [(l, ch) for l in range(len(lines) + 1)
+                          for ch in range((true_units(e, lines[l]) if l < len(lines) else 0) + 2)]
+                    for (l, ch) in ps:
+                        for (l2, ch2) in ps:
+                            cases.append({"k": "rfrom", "e": e, "lines": lines, "l": l, "ch": ch, "l2": l2, "ch2": ch2})
+                    if n <= 2 or chk.quick is False:
+                        ks = [(l, k) for l in range(len(lines) + 1) for k in range((len(lines[l]) if l < len(lines) else 0) + 2)]
+                        for (l, ch) in ks:
+                            for (l2, ch2) in ks:
+                                cases.append({"k": "rto", "e": e, "lines": lines, "l": l, "ch": ch, "l2": l2, "ch2": ch2})
         # lines that are not LSP-shaped (embedded terminators): model = implementation only
         weird = [0x61, 10, 13, 0x1F60B]
         for _ in range(chk.n(400, 5000)):
@@ -175,6 +200,33 @@ class C11(core.Property):
             else:
                 i += 1
         return n + (1 if text and text[-1] not in (10, 13) else 0)
+
+    _cells = [0]
+
+    def _cell_document(self, c):
+        """the TextDocument a real LanguageServer (negotiated to the case's encoding) holds for a notebook
+        cell that arrived with notebookDocument/didOpen ("open") or with a didChange structure ("struct")"""
+        import c04
+        server = c04._shared_server(c["e"], 2)
+        self._cells[0] += 1
+        uri = "file:///c11/cell%d.py" % self._cells[0]
+        for m, _ in c04._msgs({"text": c["text"], "v0": 1, "ns": [], "cell": c["cell"]}, uri):
+            c04._deliver(server, m)
+        return server.workspace.get_text_document(uri)
+
+    @staticmethod
+    def _lines_keep(text):
+        """the lines of a text with their terminators (LF, CRLF, CR), as TextDocument.lines has them"""
+        out, cur, i = [], [], 0
+        while i < len(text):
+            c = text[i]; cur.append(c); i += 1
+            if c == 13 and i < len(text) and text[i] == 10:
+                cur.append(10); i += 1
+            if c in (10, 13):
+                out.append(cur); cur = []
+        if cur:
+            out.append(cur)
+        return out
 
     @staticmethod
     def _last_line(text):
@@ -257,12 +309,15 @@ class C11(core.Property):
                     assert lines == before, "lines argument modified"
                     out.append([r.line, r.character, p.line, p.character])
                 elif k in ("offset", "word"):
-                    key = (c["e"], tuple(c["text"]))
+                    key = (c["e"], tuple(c["text"]), c.get("cell"))
                     if key not in doc_cache:
                         if len(doc_cache) > 20000:
                             doc_cache.clear()
-                        doc_cache[key] = TextDocument("file:///c11.txt", tostr(c["text"]),
-                                                      position_codec=codecs[c["e"]])
+                        if c.get("cell"):
+                            doc_cache[key] = self._cell_document(c)
+                        else:
+                            doc_cache[key] = TextDocument("file:///c11.txt", tostr(c["text"]),
+                                                          position_codec=codecs[c["e"]])
                     doc = doc_cache[key]
                     p = types.Position(line=c["l"], character=c["ch"])
                     if k == "offset":
@@ -370,12 +425,17 @@ class C11(core.Property):
                 nlines = len(c["lines"]) if "lines" in c else self._nlines(c["text"])
                 klass = "F16p-eof-unit-count" if (k.startswith("from") and c["l"] >= nlines) else "F17-utf8-widths"
             return {"M": M, "S": S, "guard": bool(g), "klass": klass}
-        # range wrappers: the statement's clause (iv): the range argument is unchanged
-        return {"M": v, "S": {"arg": [c["l"], c["ch"], c["l2"], c["ch2"]]}, "guard": True}
+        # range wrappers: clause (iv) the range argument is unchanged, and pointwise: each end of the
+        # result is the reference conversion of that end (mid-character ends have no reference)
+        pts = [v[9:11] if v[8] else None, v[12:14] if v[11] else None]
+        return {"M": v[:8], "S": {"arg": [c["l"], c["ch"], c["l2"], c["ch2"]], "pts": pts}, "guard": True}
 
     def satisfies(self, c, impl, S):
         if isinstance(S, dict) and "arg" in S:
-            return isinstance(impl, list) and len(impl) == 8 and impl[4:] == S["arg"]
+            if not (isinstance(impl, list) and len(impl) == 8 and impl[4:] == S["arg"]):
+                return False
+            pts = S.get("pts") or [None, None]
+            return all(p is None or impl[2 * i:2 * i + 2] == p for i, p in enumerate(pts))
         return impl == S
 
     def nontrivial(self, c):
@@ -397,7 +457,7 @@ class C11(core.Property):
     def distribution(self, cases):
         d = {}
         for c in cases:
-            key = c["k"] + (f"/utf{c['e']}" if "e" in c else "")
+            key = c["k"] + ("-cell" if c.get("cell") else "") + (f"/utf{c['e']}" if "e" in c else "")
             d[key] = d.get(key, 0) + 1
         return d
 
